@@ -8,3 +8,5 @@ P = "C14"
 META = dict(rp.META)
 for n, hf, fs in rp.FAULT_UNITS + rp.GADF_UNITS_SEQ + rp.READ_UNITS:
     register(Unit(P, n, hf, functions=fs, replay=rp._replay_gadf if "get_all" in n or "row_count" in n else rp._replay_reads))
+for n, hf, fs in rp.REFRESH_UNITS:
+    register(Unit(P, n, hf, functions=fs, replay=rp._replay_refresh))
